@@ -127,6 +127,9 @@ const Known *matchKnown(const std::string &key) {
   return nullptr;
 }
 
+} // namespace
+bool pbt::isKnown(const std::string &key) { return matchKnown(key) != nullptr; }
+namespace {
 void loadKnown() {
   if (S.knownPath.empty()) return;
   std::ifstream f(S.knownPath);
